@@ -1003,6 +1003,20 @@ class Exec:
 
         def make_queries(st, file_names, table, tag):
             complete = all(sn in table for sn in file_names)
+            if tag == "C":
+                # values handed to the constructor come back as they are (int stays int, float32
+                # stays float32): they are compared by numeric value, not by type and bit pattern
+                def _same(got, exp):  # noqa: F811
+                    if exp is None or got is None:
+                        return exp is None and got is None
+                    if exp == "skip":
+                        return True
+                    try:
+                        return float(got) == float(exp)
+                    except (TypeError, ValueError):
+                        return False
+            else:
+                _same = globals()["_same"]
             col = {}
             smodel = {}
             defined_all = complete
@@ -1089,7 +1103,7 @@ class Exec:
                             self.v("value_roundtrip", f"{sn!r}/{g!r}/{m}: result reported a missing/NaN/inf value, loader returned {gv!r}")
                     else:
                         self.note("loader_finite_values")
-                        if not (isinstance(gv, float) and model.float_bits(gv) == model.float_bits(e)):
+                        if not (_same(gv, e) if tag == "C" else (isinstance(gv, float) and model.float_bits(gv) == model.float_bits(e))):
                             clause = "value_roundtrip"
                             if isinstance(gv, float):
                                 others = {model.float_bits(v) for s2 in table for g2 in table[s2] for m2, v in table[s2][g2].items() if isinstance(v, float) and (s2, g2, m2) != (sn, g, m)}
@@ -1244,6 +1258,39 @@ class Exec:
                 qb, _, _ = make_queries(st_b, file_names, table_b, "B" if layout == "same" else "Bperm")
                 queries = queries + qb
                 self.note("two_objects_interleaved")
+        # a third object built directly through the public constructor from in-memory values of
+        # mixed scalar types (Python floats and ints, numpy float64 / int64); the values
+        # are small dyadic rationals, exact in every one of these types
+        if second_object and complete and len(rows) >= 2 and rng.random() < 0.4:
+            import numpy as _np
+
+            # (no float32: numpy averages an all-float32 column in float32 arithmetic, which is a
+            #  precision matter of the caller's own data type, not something C20 speaks about)
+            kinds = [float, _np.float64, _np.int64, int]
+            vd, table_c = {}, {sn: {g: {} for g in ref["groups"]} for sn in file_names}
+            for g in ref["groups"]:
+                vd[g] = {}
+                for m in ref["keys"]:
+                    colv = []
+                    for sn in file_names:
+                        if table[sn][g][m] is None or table[sn][g][m] == "skip" or rng.random() < 0.15:
+                            colv.append(None)
+                            table_c[sn][g][m] = None
+                        else:
+                            k = rng.choice(kinds)
+                            x = rng.randint(-8, 64) if k in (_np.int64, int) else rng.randint(-16, 256) / 8.0
+                            colv.append(k(x))
+                            table_c[sn][g][m] = float(x)
+                    vd[g][m] = colv
+            try:
+                st_c = st_mod.Panoptica_Statistic(subj_names=list(file_names), value_dict=vd)
+            except Exception as e:  # noqa: BLE001
+                self.v("summary", f"constructing a statistics object from in-memory values raised {type(e).__name__}: {str(e)[:120]}")
+                st_c = None
+            if st_c is not None:
+                qc, _, _ = make_queries(st_c, file_names, table_c, "C")
+                queries = queries + qc
+                self.note("third_object_from_memory")
         self._qn = 0
         for rnd in range(2):
             rng.shuffle(queries)
